@@ -49,6 +49,12 @@ def check(run, prog, tier):
     run.rule("C17-F", "the populations handed out depend linearly on the initial populations (degree analysis): no renormalisation, "
                       "clipping or added constant on the way from p(0) to p(t)", minimum=2)
     rule_F(run, prog)
+    run.rule("C17-G", "whether a time axis is a sub-axis of the propagator's, and which of its points a time is, does not depend on "
+                      "where the axes start: the comparisons and look-ups of ValueAxis use points through differences only "
+                      "(affine typing, shared with C08-M)", minimum=7)
+    from . import handout
+    from ..report import RuleProxy
+    handout.check_axis_lookup(RuleProxy(run, "C17-G"), "C17-G", prog)
 
 
 def rule_F(run, prog):
